@@ -350,6 +350,7 @@ def run_check(pid, tier, seed, replay=None):
             samples=ex.samples[:6], traces_validated_against_impl=ex.traces_validated,
             disagreements_checked=len(ex.disagreements), histories=ex.histories, counters=ex.counters,
             theorems=theorem_names(pid), notes=ex.notes,
+            **({"exhaustive": True} if getattr(ex, "exhaustive", False) else {}),
         ),
         assumptions=getattr(mod, "ASSUMPTIONS", []),
         wall_s=round(wall, 2), violations=nviol,
